@@ -86,68 +86,6 @@ def field_roles(F, b):
 
 
 _CTX = {"roles": {}, "ren": {}}
-_LVAR = re.compile(r"\('var', '([A-Za-z_][A-Za-z0-9_]*)'\)")
-
-
-def local_names(items, fixed):
-    out = set()
-    for it, n in items:
-        for m in _LVAR.finditer(repr(it)):
-            if m.group(1) not in fixed:
-                out.add(m.group(1))
-        tag = it[0]
-        if tag.startswith(("upd:", "set:", "let:")):
-            out.add(tag.split(":")[1])
-    return out
-
-
-def signatures(items, names):
-    """name -> multiset of the items it occurs in, with the name marked and every other local blanked"""
-    from collections import Counter
-    sig = {n: Counter() for n in names}
-    for it, cnt in items:
-        r = repr(it)
-        present = set(m.group(1) for m in _LVAR.finditer(r)) & names
-        tag = it[0]
-        tagname = tag.split(":")[1] if tag.startswith(("upd:", "set:", "let:")) else None
-        if tagname in names:
-            present.add(tagname)
-        for x in present:
-            def sub(m):
-                return "('var', '@')" if m.group(1) == x else ("('var', '_')" if m.group(1) in names else m.group(0))
-            marked = _LVAR.sub(sub, r)
-            if tagname is not None:
-                marked = marked.replace("'%s" % tag, "'%s" % tag.replace(":%s" % tagname, ":@" if tagname == x else ":_"), 1)
-            sig[x][marked] += cnt
-    return sig
-
-
-def unify_locals(ref_items, items, fixed):
-    """A renaming of the locals of `items` onto the locals of `ref_items` (siblings name the same quantity
-    differently): greedy matching on the overlap of their occurrence signatures; identical names win ties."""
-    A = local_names(ref_items, fixed)
-    B = local_names(items, fixed)
-    sa, sb = signatures(ref_items, A), signatures(items, B)
-    pairs = []
-    for b in B:
-        for a in A:
-            ov = sum((sa[a] & sb[b]).values())
-            if ov > 0:
-                pairs.append((ov + (0.5 if a == b else 0), a, b))
-    pairs.sort(key=lambda x: (-x[0], x[1], x[2]))
-    ren, used = {}, set()
-    for sc, a, b in pairs:
-        if b in ren or a in used:
-            continue
-        ren[b] = a
-        used.add(a)
-    # a local left without a partner must not collide with a reference name it is not paired with
-    for b in B:
-        if b not in ren and b in used:
-            ren[b] = b + "'"
-    return {b: a for b, a in ren.items() if a != b}
-
-
 class _Bag(dict):
     def add(self, it):
         self[it] = self.get(it, 0) + 1
